@@ -268,7 +268,8 @@ class AddPayload(Contract):
         if outcome is None or outcome == "zlib.error":
             st.set(m, "data", VBytes(fresh("msg_data", BytesS)))
         elif outcome == "Pyro5.errors.ProtocolError":
-            return
+            # refused on the length check (nothing set) or because the compressed body is not exactly one stream (annotations parsed, raw body kept)
+            st.set(m, "data", VOpt(fresh("no_data_set", BoolS), VBytes(fresh("msg_data", BytesS))))
         ann = empty_seqdict(st)
         st.set(ann, "n", VInt(fresh("ann_n", IntS)))
         st.set(m, "annotations", ann)
@@ -295,6 +296,7 @@ class AddPayload(Contract):
                 ("every-chunk-decoded (chunk k = bytes wpos(k)..wpos(k+1), so the chunks tile [0, annotations_size) exactly)",
                  z3.ForAll([k], z3.Implies(z3.And(0 <= k, k < n), chunk_facts(P, keys, vals, k)))),
                 ("no-annotations-iff-size-0", (n == 0) == (A == 0)),
+                # (the body itself, or - compressed - the data of the ONE complete zlib stream the body consists of: nothing left over, the length fields tile the bytes exactly)
                 ("data", z3.If(comp, z3.And(zvalid(body), data.e == zdecompress(body)), data.e == body)),
                 ("flags: COMPRESSED cleared, rest kept", st.get(m, "flags").e == f0 - 2 * bit(f0, 1)),
                 ("data_size", st.get(m, "data_size").e == z3.If(comp, z3.Length(data.e), D)),
@@ -302,7 +304,11 @@ class AddPayload(Contract):
 
     def x_protocol(self, E, old, st, a, exc):
         m, P, A, D, n, keys, vals = self._views(old, st, a)
-        return [("only-on-length-mismatch", z3.Length(P) != A + D), ("no-data-set", z3.BoolVal(isinstance(st.get(m, "data"), VNone)))]
+        body = simple_slice(P, A, None)
+        comp = bit(old.get(m, "flags").e, 1) == 1
+        return [("refused as a protocol error only on a length mismatch, or when the body of a compressed message is not exactly one complete zlib stream",
+                 z3.Or(z3.Length(P) != A + D, z3.And(comp, z3.Not(zvalid(body))))),
+                ("no-data-set on a length mismatch", z3.Implies(z3.Length(P) != A + D, z3.BoolVal(isinstance(st.get(m, "data"), VNone))))]
 
     def x_assert(self, E, old, st, a, exc):
         # the chunk walk overshot annotations_size: the chunks do not tile the annotation area
@@ -315,7 +321,7 @@ class AddPayload(Contract):
 
     def x_zlib(self, E, old, st, a, exc):
         m, P, A, D, n, keys, vals = self._views(old, st, a)
-        return [("flagged-compressed-but-invalid", z3.And(bit(old.get(m, "flags").e, 1) == 1, z3.Not(zvalid(simple_slice(P, A, None)))))]
+        return [("flagged-compressed-but-invalid", z3.And(z3.Length(P) == A + D, bit(old.get(m, "flags").e, 1) == 1, z3.Not(zvalid(simple_slice(P, A, None)))))]
 
     def loop_inv(self, k_, E, old, st, a):
         m, P, A, D, n, keys, vals = self._views(old, st, a)
@@ -529,6 +535,7 @@ class RecvStub(Contract):
                 ("chunks-end-exactly-at-annotations_size", wpos(P, n) == asz),
                 ("annotation-count-is-natural", n >= 0),
                 ("every-chunk-decoded", z3.ForAll([k], z3.Implies(z3.And(0 <= k, k < n), chunk_facts(P, keys, vals, k)))),
+                # (the body itself, or - compressed - the data of the ONE complete zlib stream the body consists of: nothing left over, the length fields tile the bytes exactly)
                 ("data", z3.If(comp, z3.And(zvalid(body), data.e == zdecompress(body)), data.e == body)),
                 ("field-ranges", z3.And(typ >= 0, typ < 256, ser >= 0, ser < 256, flags >= 0, flags < 65536, seq >= 0, seq < 65536,
                                         dsz >= 0, asz >= 0)),
@@ -545,12 +552,17 @@ class RecvStub(Contract):
         pos = st.get(sock, "pos").e
         mx = E.qualified("Pyro5.config.MAX_MESSAGE_SIZE").e
         wellformed = z3.And(tag == PYRO, ver == VERSION, magic == MAGIC)
-        post = [("refused-before-the-body", z3.Or(pos == pos0 + 6, pos == pos0 + 40)),
-                ("too-large-refused-at-header", z3.Implies(z3.And(wellformed, asz + dsz > mx), pos == pos0 + 40)),
-                ("out-untouched", st.get(sock, "out").e == old.get(sock, "out").e)]
         acc = a["accepted_msgtypes"]
         wrong_type = z3.BoolVal(False) if isinstance(acc, VNone) else z3.Not(z3.Or([typ == x.e for x in acc.items]))
-        post.append(("refusal-justified", z3.Or(z3.Not(wellformed), asz + dsz > mx, wrong_type)))
+        # (since fix be83d31 a third protocol refusal exists: the body of a compressed message that is not exactly one complete zlib stream - known only once the body is
+        #  there; like every body-level failure it leaves the stream message-aligned)
+        body = z3.SubSeq(stream, pos0 + 40 + asz, dsz)
+        body_refused = z3.And(wellformed, asz + dsz <= mx, z3.Not(wrong_type), bit(flags, 1) == 1, pos == pos0 + 40 + asz + dsz, z3.Not(zvalid(body)))
+        post = [("refused-before-the-body (prefix or header), or - compressed body that is not exactly one zlib stream - after exactly this message",
+                 z3.Or(pos == pos0 + 6, pos == pos0 + 40, body_refused)),
+                ("too-large-refused-at-header", z3.Implies(z3.And(wellformed, asz + dsz > mx), pos == pos0 + 40)),
+                ("out-untouched", st.get(sock, "out").e == old.get(sock, "out").e)]
+        post.append(("refusal-justified", z3.Or(z3.Not(wellformed), asz + dsz > mx, wrong_type, body_refused)))
         return post
 
     def x_comm(self, E, old, st, a, exc):
